@@ -69,6 +69,8 @@ def main():
         print("usage: check <Cxx> quick|thorough"); sys.exit(2)
     prop, tier = sys.argv[1], sys.argv[2]
     seed = int(os.environ.get("VERIF_SEED", "0"))
+    if tier == "--replay":
+        return replay(prop, sys.argv[3])
     t0 = time.time()
     import leancheck, extract
     try:
@@ -151,6 +153,26 @@ def main():
     print("%s %s seed=%d: %d cases, %d distinct non-trivial, theorems %d/%d, corr-disagreements %d, violations %d, %.1fs"
           % (prop, tier, seed, res["evaluations"], len(res["sigs"]), lean["discharged"], nth, len(res["corr_fail"]), len(violations), wall))
     sys.exit(1 if violations else 0)
+
+
+def replay(prop, path):
+    """re-execute a stored failing case on the current tree and on the model"""
+    import core
+    d = json.load(open(path))
+    case = d.get("case") or (d.get("broken") or [{}])[0].get("case")
+    if case is None:
+        print("replay file names a broken obligation, not an input:", json.dumps(d.get("broken"), indent=1)[:2000]); sys.exit(1)
+    mod = importlib.import_module("props." + prop.lower())
+    ctx = core.Ctx(prop, "replay", 0)
+    ctx.use_model = os.path.exists(core.DRIVER); ctx.search_only = False
+    ctx.known = []
+    mod.run_case(ctx, case)
+    for k in ("oracle_fail", "corr_fail", "spec_fail"):
+        for f in getattr(ctx, k):
+            print(k, ":", f["what"])
+    bad = bool(ctx.oracle_fail or ctx.corr_fail or ctx.spec_fail)
+    print("replay:", "STILL FAILS" if bad else "passes on the current tree")
+    sys.exit(1 if bad else 0)
 
 
 def core_write_replay(prop, kind, payload):
